@@ -2,9 +2,11 @@ package main
 
 import (
 	"bytes"
+	"context"
 	"encoding/json"
 	"errors"
 	"fmt"
+	"io"
 	"strings"
 
 	"github.com/ddddddO/gtree"
@@ -22,21 +24,56 @@ var errInjR = errors.New("verif: injected reader failure")
 var errInjW = errors.New("verif: injected writer failure")
 
 type failReader struct {
-	data string
-	pos  int
-	fail int // fail once pos reaches this offset
+	data   string
+	pos    int
+	fail   int    // fail once pos reaches this offset
+	mode   string // "" keeps failing | "once-eof": fails once, then io.EOF | "once-resume": fails once, then delivers the rest | "same-read": the data before the offset and the error come from one Read
+	err    error
+	failed bool
 }
 
 func (r *failReader) Read(p []byte) (int, error) {
-	if r.pos >= r.fail {
-		return 0, errInjR
+	e := r.err
+	if e == nil {
+		e = errInjR
+	}
+	if r.pos >= r.fail && !(r.failed && r.mode != "") {
+		r.failed = true
+		return 0, e
+	}
+	if r.failed {
+		if r.mode == "once-eof" || r.pos >= len(r.data) {
+			return 0, io.EOF
+		}
+		n := copy(p, r.data[r.pos:])
+		r.pos += n
+		return n, nil
 	}
 	n := copy(p, r.data[r.pos:r.fail])
 	r.pos += n
+	if r.mode == "same-read" && r.pos >= r.fail && n > 0 {
+		r.failed = true
+		r.mode = ""
+		return n, e
+	}
 	return n, nil
 }
 
+// error flavours: what real readers and writers return is often not a plain sentinel
+func flavour(name string, base error) error {
+	switch name {
+	case "canceled-wrapped":
+		return fmt.Errorf("stream closed: %w (%w)", base, context.Canceled)
+	case "deadline-wrapped":
+		return fmt.Errorf("i/o timeout: %w (%w)", base, context.DeadlineExceeded)
+	case "eof-wrapped":
+		return fmt.Errorf("connection reset: %w (%w)", base, io.ErrUnexpectedEOF)
+	}
+	return base
+}
+
 type failWriter struct {
+	err    error
 	buf    bytes.Buffer
 	writes int
 	failAt int // 0 = never
@@ -47,11 +84,15 @@ type failWriter struct {
 func (w *failWriter) Write(p []byte) (int, error) {
 	w.writes++
 	if w.failAt > 0 && (w.writes == w.failAt || (w.writes > w.failAt && !w.once)) {
+		e := w.err
+		if e == nil {
+			e = errInjW
+		}
 		if w.short && w.writes == w.failAt && len(p) > 1 {
 			w.buf.Write(p[:len(p)/2])
-			return len(p) / 2, errInjW
+			return len(p) / 2, e
 		}
-		return 0, errInjW
+		return 0, e
 	}
 	return w.buf.Write(p)
 }
@@ -65,6 +106,8 @@ type c14Replay struct {
 	Writer int    `json:"writer_fail_at"`    // 0 none
 	Short  bool   `json:"short"`
 	Once   bool   `json:"once"` // transient: exactly one write is rejected, later writes are accepted
+	RMode  string `json:"reader_mode,omitempty"`
+	Flav   string `json:"error_flavour,omitempty"`
 }
 
 func c14Opts(mode string) []gtree.Option {
@@ -107,11 +150,11 @@ func c14Call(r c14Replay, rd *failReader, w *failWriter) (err error, pan string)
 }
 
 func c14Case(c *rep.Ctx, r c14Replay, full string) {
-	rd := &failReader{data: r.Doc, fail: len(r.Doc) + 1}
+	rd := &failReader{data: r.Doc, fail: len(r.Doc) + 1, mode: r.RMode, err: flavour(r.Flav, errInjR)}
 	if r.Reader >= 0 {
 		rd.fail = r.Reader
 	}
-	w := &failWriter{failAt: r.Writer, short: r.Short, once: r.Once}
+	w := &failWriter{failAt: r.Writer, short: r.Short, once: r.Once, err: flavour(r.Flav, errInjW)}
 	if r.Reader < 0 {
 		rd = &failReader{data: r.Doc, fail: len(r.Doc)}
 		// a healthy reader ends with io.EOF
@@ -124,7 +167,7 @@ func c14Case(c *rep.Ctx, r c14Replay, full string) {
 	c.Eval()
 	c.Trans(1)
 	size := len(r.Doc) + r.Reader
-	desc := fmt.Sprintf("route=%s mode=%s doc=%q reader fails after %d bytes", r.Route, r.Mode, r.Doc, r.Reader)
+	desc := fmt.Sprintf("route=%s mode=%s doc=%q reader fails after %d bytes (reader mode %q, error flavour %q)", r.Route, r.Mode, r.Doc, r.Reader, r.RMode, r.Flav)
 	if pan != "" {
 		c.Violation("C14|panic-on-reader-failure|"+r.Mode, desc+": "+pan, size, r)
 		return
@@ -181,7 +224,7 @@ func c14JudgeWriter(c *rep.Ctx, r c14Replay, w *failWriter, err error, pan strin
 	c.Eval()
 	c.Trans(1)
 	size := len(r.Doc) + r.Writer
-	desc := fmt.Sprintf("route=%s mode=%s doc=%q writer fails at write %d (short=%v transient=%v)", r.Route, r.Mode, r.Doc, r.Writer, r.Short, r.Once)
+	desc := fmt.Sprintf("route=%s mode=%s doc=%q writer fails at write %d (short=%v transient=%v flavour=%q)", r.Route, r.Mode, r.Doc, r.Writer, r.Short, r.Once, r.Flav)
 	if pan != "" {
 		c.Violation("C14|panic-on-writer-failure|"+r.Mode, desc+": "+pan, size, r)
 		return
@@ -259,6 +302,13 @@ func init() {
 						r := base
 						r.Writer, r.Once = j, true
 						c14Case(c, r, full)
+						if j <= 3 {
+							for _, fl := range []string{"canceled-wrapped", "deadline-wrapped", "eof-wrapped"} {
+								r := base
+								r.Writer, r.Flav = j, fl
+								c14Case(c, r, full)
+							}
+						}
 					}
 					if route == "md" {
 						for i := 0; i < len(doc); i++ {
@@ -266,6 +316,18 @@ func init() {
 							r.Reader = i
 							c.Nontrivial()
 							c14Case(c, r, full)
+							if i <= 6 || i%5 == 0 {
+								for _, rm := range []string{"once-eof", "once-resume", "same-read"} {
+									r := base
+									r.Reader, r.RMode = i, rm
+									c14Case(c, r, full)
+								}
+								for _, fl := range []string{"canceled-wrapped", "deadline-wrapped", "eof-wrapped"} {
+									r := base
+									r.Reader, r.Flav = i, fl
+									c14Case(c, r, full)
+								}
+							}
 						}
 					}
 				}
